@@ -1,5 +1,8 @@
-"""C04 extractor: source facts of Pyro5/serializers.py (+ builtins / Pyro5.errors / sqlite3 / struct name tables) -> Lean."""
-import ast
+"""C04 extractor: name tables of builtins / Pyro5.errors / sqlite3 / struct and a table of PROBES of the real decoders -> Lean.
+
+Nothing here reads the source text of Pyro5/serializers.py: the behaviour of dict_to_class / make_exception / recreate_classes /
+ext_hook / loads / loadsCall is recorded by calling the public entry points on fixed inputs (refactorings that keep the behaviour keep
+the generated file byte-identical)."""
 import json
 import os
 
@@ -18,30 +21,9 @@ def _chars(s):
         if not (32 <= ord(c) < 127):
             raise RuntimeError("non-ASCII name %r" % s)
         out.append("'\\''" if c == "'" else ("'\\\\'" if c == "\\" else "'%s'" % c))
+    if len(out) > 400:      # a literal that long is too deep for the elaborator: concatenate chunks
+        return "(" + " ++ ".join("[" + ",".join(out[i:i + 200]) + "]" for i in range(0, len(out), 200)) + ")"
     return "[" + ",".join(out) + "]"
-
-
-def _ordered(node):
-    """all sub-nodes of `node` in source order"""
-    out = [n for n in ast.walk(node) if hasattr(n, "lineno")]
-    out.sort(key=lambda n: (n.lineno, n.col_offset, -(getattr(n, "end_lineno", n.lineno) * 100000 + getattr(n, "end_col_offset", 0))))
-    return out
-
-
-def _tests(fn):
-    """the decision list of a function: comparisons, str-method tests, .get() and subscripts with constant keys, in source order"""
-    out = []
-    for n in _ordered(fn):
-        if isinstance(n, ast.Compare):
-            out.append(ast.unparse(n))
-        elif isinstance(n, ast.Call) and isinstance(n.func, ast.Attribute) and n.func.attr in (
-                "startswith", "endswith", "split", "get", "decode", "items"):
-            out.append(ast.unparse(n))
-        elif isinstance(n, ast.Call) and isinstance(n.func, ast.Name) and n.func.id in ("isinstance", "issubclass", "getattr", "setattr", "float"):
-            out.append(ast.unparse(n))
-        elif isinstance(n, ast.Subscript) and isinstance(n.slice, ast.Constant):
-            out.append(ast.unparse(n))
-    return out
 
 
 def _kinds(mod, base):
@@ -64,69 +46,307 @@ def _table(name, doc, rows):
     return "/-- %s -/\ndef %s : List (List Char × Kind) := [\n  %s]\n" % (doc, name, body)
 
 
+def _lit(R, v, label):
+    """python literal tree -> Lean `Lit` term (mirrors `tokens` in c04.py)"""
+    t = type(v)
+    if t is str:
+        return "(.str %s)" % _chars(v)
+    if t is bytes or t is bytearray:
+        return "(.bytes [%s])" % ",".join(str(b) for b in bytes(v))
+    if t is list or t is tuple:
+        terms = [_lit(R, x, label) for x in v]
+        if len(terms) < 64:
+            return "(.%s [%s])" % ("list" if t is list else "tuple", ", ".join(terms))
+        # long lists: runs of equal elements as List.replicate (a literal of > 1000 elements is too deep for the elaborator)
+        parts, i = [], 0
+        while i < len(terms):
+            j = i
+            while j < len(terms) and terms[j] == terms[i]:
+                j += 1
+            parts.append("List.replicate %d %s" % (j - i, terms[i]) if j - i >= 8 else "[%s]" % ", ".join(terms[i:j]))
+            i = j
+        return "(.%s (%s))" % ("list" if t is list else "tuple", " ++ ".join(parts))
+    if t is set:
+        from props import c04
+        return "(.set [%s])" % ", ".join(_lit(R, x, label) for x in sorted(v, key=lambda e: c04.canon(R, e)))
+    if t is dict:
+        vals = ", ".join(_lit(R, x, label) for x in v.values())
+        if all(type(k) is str for k in v):
+            return "(.dictS [%s] [%s])" % (", ".join(_chars(k) for k in v), vals)
+        keys = ", ".join("(true, %s)" % _chars(k) if type(k) is str else "(false, %s)" % _chars(label(k)) for k in v)
+        return "(.dictK [%s] [%s])" % (keys, vals)
+    if t is R.msgpack.ExtType:
+        from props import c04
+        try:
+            conv = c04._own_ext(v.code, v.data)
+            return "(.ext %d %s %s %s)" % (v.code, _lstr(label(v)), _lstr(label(conv)), "true" if conv else "false")
+        except Exception:
+            return "(.ext %d %s %s false)" % (v.code, _lstr(label(v)), _lstr("none"))
+    import datetime
+    if t in (type(None), bool, int, float, complex, datetime.datetime, datetime.date, R.msgpack.Timestamp):
+        return "(.atom %s %s)" % ("true" if v else "false", _lstr(label(v)))
+    return "(.blob %s %s)" % ("true" if v else "false", _lstr(label(v)))
+
+
+def _probe_table(R):
+    """(name, serializer, op, registry, payload): the fixed inputs on which the real decoder is observed.  One well-formed class
+    dict per recognised tag, the refusing branches (unknown / dunder / unflagged / non-class / non-text tags), every member
+    missing or ill-typed, the registry, wrappers, containers of every kind, the call shapes of every serializer, msgpack
+    extension values on both paths, and class dicts nested in class dicts (top-down decoding)."""
+    ET = R.msgpack.ExtType
+    P = []
+
+    def add(name, payload, ser="json", op="loads", reg=()):
+        P.append((name, ser, op, list(reg), payload))
+
+    def exc(tag, **kw):
+        d = {"__class__": tag, "__exception__": True, "args": ["m", 5]}
+        d.update(kw)
+        return d
+    uri = {"__class__": "Pyro5.core.URI", "state": ["PYRO", "o", None, "h", 1]}
+    proxy = {"__class__": "Pyro5.client.Proxy", "state": ["PYRO:o@127.0.0.1:1", ["ow"], ["m"], ["a"], "hello", None]}
+    # --- the hard-coded tags, well-formed ------------------------------------------------------
+    add("uri", uri)
+    add("proxy", proxy)
+    add("daemon", {"__class__": "Pyro5.server.Daemon", "state": []})
+    for n in ("Serpent", "Marshal", "Json", "Msgpack"):
+        add("util-" + n, {"__class__": "Pyro5.util.%sSerializer" % n})
+    add("struct-error", {"__class__": "struct.error", "args": ["bad"], "attributes": {"x_note": 1}})
+    add("struct-error-flag-irrelevant", {"__class__": "struct.error", "__exception__": False, "args": []})
+    add("wrapper-exc", {"__class__": "Pyro5.core._ExceptionWrapper", "exception": exc("ZeroDivisionError")})
+    add("wrapper-plain", {"__class__": "Pyro5.core._ExceptionWrapper", "exception": [1, {"a": uri}]})
+    add("wrapper-untagged-dict", {"__class__": "Pyro5.core._ExceptionWrapper", "exception": {"a": 1}})
+    add("wrapper-wrapper-proxy", {"__class__": "Pyro5.core._ExceptionWrapper",
+                                  "exception": {"__class__": "Pyro5.core._ExceptionWrapper", "exception": proxy}})
+    add("wrapper-hostile", {"__class__": "Pyro5.core._ExceptionWrapper", "exception": {"__class__": "os.system"}})
+    add("wrapper-dunder", {"__class__": "Pyro5.core._ExceptionWrapper", "exception": exc("a.__b")})
+    add("wrapper-missing", {"__class__": "Pyro5.core._ExceptionWrapper"})
+    add("wrapper-serpent-float-inside", {"__class__": "Pyro5.core._ExceptionWrapper", "exception": {"__class__": "float", "value": "1"}},
+        ser="serpent")
+    # --- members missing / ill-typed -------------------------------------------------------------
+    for n, st in (("missing", None), ("short", [1, 2, 3, 4]), ("long", [1, 2, 3, 4, 5, 6]), ("str5", "abcde"), ("none", 0),
+                  ("dict5", {"a": 1, "b": 2, "c": 3, "d": 4, "e": 5})):
+        d = {"__class__": "Pyro5.core.URI"}
+        if n != "missing":
+            d["state"] = st
+        add("uri-state-" + n, d)
+    for n, st in (("missing", None), ("short", ["PYRO:o@h:1", [], []]), ("empty", []), ("baduri", ["nope", [], [], [], "h", None]),
+                  ("unhashable", ["PYRO:o@h:1", [[1]], [], [], "h", None]), ("int", 5), ("strstate", "PYRO:o@h:1"),
+                  ("nested-uri-dict", [uri, [], [], [], "h", None]), ("nested-proxy-in-set", ["PYRO:o@h:1", proxy, [], [], "h", None])):
+        d = {"__class__": "Pyro5.client.Proxy"}
+        if n != "missing":
+            d["state"] = st
+        add("proxy-state-" + n, d)
+    for n, st in (("missing", None), ("nonempty", [1]), ("str", ""), ("dict", {}), ("int", 3), ("strx", "x")):
+        d = {"__class__": "Pyro5.server.Daemon"}
+        if n != "missing":
+            d["state"] = st
+        add("daemon-state-" + n, d)
+    add("exc-args-missing", {"__class__": "ValueError", "__exception__": True})
+    add("exc-args-int", exc("ValueError", args=5))
+    add("exc-args-str", exc("ValueError", args="ab"))
+    add("exc-args-dict", exc("ValueError", args={"k": 1}))
+    add("exc-args-classdict", exc("ValueError", args=[proxy, uri]))
+    add("exc-attrs", exc("KeyError", attributes={"x_note": [1], "_pyroTraceback": ["l1"], "custom": uri}))
+    add("exc-attrs-list", exc("KeyError", attributes=[1]))
+    add("exc-attrs-none", exc("KeyError", attributes=None))
+    add("exc-attrs-empty", exc("KeyError", attributes={}))
+    add("exc-ctor-fails", exc("UnicodeDecodeError"))
+    add("exc-setattr-fails", exc("ValueError", attributes={"__class__": "str"}))
+    # --- Pyro5.errors.* ------------------------------------------------------------------------------
+    for n in sorted(k for k in vars(R.errors) if "__" not in k):
+        add("errors-" + n, {"__class__": "Pyro5.errors." + n, "args": ["m"]})
+    add("errors-nope", {"__class__": "Pyro5.errors.Nope", "args": []})
+    add("errors-empty", {"__class__": "Pyro5.errors.", "args": []})
+    add("errors-dotted", {"__class__": "Pyro5.errors.NamingError.x", "args": []})
+    add("errors-dunder", {"__class__": "Pyro5.errors.__builtins__", "args": []})
+    # --- __exception__ branch ----------------------------------------------------------------------
+    for tag in ("ValueError", "TimeoutError", "NamingError", "OSError", "IOError", "BaseException", "SystemExit", "int", "eval", "Nope",
+                "builtins.KeyError", "exceptions.KeyError", "builtins.TimeoutError", "builtins.int", "builtins.eval", "builtins.open",
+                "builtins.Nope", "builtins.", "builtins.os.system", "exceptions.", "sqlite3.Error", "sqlite3.OperationalError",
+                "sqlite3.Warning", "sqlite3.connect", "sqlite3.Connection", "sqlite3.NopeError", "sqlite3.dbapi2.Error", "sqlite3.",
+                "os.system", "subprocess.Popen", "Pyro5.errors", "Pyro5.core.URI.x", "Pyro5.util.Foo", "Pyro5.util.", "pyro5.core.uri",
+                "tests.support.Thing", "float", "", ".", "x.ValueError", "builtins.__import__", "__main__.Evil", "a__b", "__"):
+        add("flag-" + (tag or "empty"), exc(tag))
+    for tag in ("ValueError", "builtins.KeyError", "sqlite3.Error", "os.system", "Evil", "builtins.__import__", "Pyro5.util.Foo"):
+        add("noflag-" + tag, {"__class__": tag, "args": []})
+    for n, fl in (("zero", 0), ("empty", ""), ("none", None), ("list", []), ("one", 1), ("str", "y"), ("list1", [0]), ("dict", {})):
+        add("flagvalue-" + n, {"__class__": "ValueError", "__exception__": fl, "args": []})
+    add("no-class-key-unknown", [{"a": 1}])
+    # --- tags that are not text ------------------------------------------------------------------------
+    for n, tag in (("none", None), ("int", 5), ("list", ["a"]), ("dict", {"a": 1}), ("true", True)):
+        add("tag-" + n, {"__class__": tag, "__exception__": True, "args": []})
+    add("tag-bytes", {"__class__": b"ValueError", "__exception__": True, "args": []}, ser="marshal")
+    add("tag-bytes-dunder", {"__class__": b"a__b"}, ser="msgpack")
+    add("tag-bytes-bad-utf8", {"__class__": b"\xff\xfe"}, ser="marshal")
+    add("tag-bytes-surrogate", {"__class__": b"\xed\xa0\x80"}, ser="msgpack")
+    add("tag-bytes-overlong", {"__class__": b"\xc0\xaf"}, ser="marshal")
+    add("tag-bytes-2byte", {"__class__": "Pyro5.errors.ü".encode("utf-8")}, ser="marshal")
+    add("tag-tuple", {"__class__": ("a", "b")}, ser="marshal")
+    add("tag-tuple-dunder", {"__class__": ("__",)}, ser="marshal")
+    # --- registry ------------------------------------------------------------------------------------------
+    add("reg-plain", {"__class__": "test.Thing", "x": [uri]}, reg=["test.Thing"])
+    add("reg-dunder", {"__class__": "my.__special__.Thing"}, reg=["my.__special__.Thing"])
+    add("reg-other-dunder", {"__class__": "my.__other__.Thing"}, reg=["my.__special__.Thing"])
+    add("reg-overrides-known", {"__class__": "Pyro5.core.URI", "state": 5}, reg=["Pyro5.core.URI"])
+    add("reg-overrides-exc", exc("ValueError"), reg=["ValueError"])
+    add("reg-bytes-tag", {"__class__": b"test.Thing"}, ser="marshal", reg=["test.Thing"])
+    add("reg-not-inside-wrapper-skipped", {"__class__": "Pyro5.core._ExceptionWrapper", "exception": {"__class__": "test.Thing"}},
+        reg=["test.Thing"])
+    # --- containers / recreate_classes ------------------------------------------------------------------
+    add("rc-list", [1, uri, [exc("KeyError")], {"k": {"z": proxy}}])
+    add("rc-tuple-set", (1, uri, {1, "a", (2, "t")}, ({"k": uri},)), ser="marshal")
+    add("rc-tuple-serpent", (uri, {"k": (exc("sqlite3.Error"),)}), ser="serpent")
+    add("rc-frozenset-passthrough", [frozenset([1]), uri], ser="marshal")
+    add("rc-nonstr-keys", {1: uri, b"k": [uri], (1, 2): 3}, ser="marshal")
+    add("rc-keys-not-recreated", {"__class__x": 1, "k": uri})
+    add("rc-first-error-wins", [{"__class__": "a__b"}, {"__class__": "os.system"}])
+    add("rc-first-error-wins-2", [{"__class__": "os.system"}, {"__class__": "a__b"}])
+    add("rc-dict-order", {"b": {"__class__": "os.system"}, "a": {"__class__": "a__b"}})
+    # (lists beyond 1024 items are exercised by the generator's bulk lists and corpus/C04/bulk-list-*: a kernel evaluation of
+    #  a 1000-element traversal is too deep, so they are not part of this table)
+    mid = [0] * 40
+    mid[20] = {"__class__": "os.system"}
+    add("rc-mid-list", mid)
+    mid2 = [0.5] * 48
+    mid2[3] = uri
+    add("rc-mid-list-ok", mid2, ser="msgpack")
+    add("serpent-float", [{"__class__": "float", "value": "nan"}, {"__class__": "float", "value": 3}], ser="serpent")
+    add("serpent-float-missing", {"__class__": "float"}, ser="serpent")
+    add("serpent-float-bad", {"__class__": "float", "value": "x"}, ser="serpent")
+    add("serpent-float-bytes-tag", {"__class__": b"float", "value": "1"}, ser="serpent")
+    add("json-float-tag", {"__class__": "float", "value": "1"})
+    # --- top-down: class dicts inside class dicts stay dicts --------------------------------------------
+    for ser in ("serpent", "marshal", "json", "msgpack"):
+        add("topdown-" + ser, exc("ValueError", args=[proxy], attributes={"x_note": uri}), ser=ser)
+        add("topdown-call-" + ser, _call(ser, [exc("ValueError", args=proxy)], {"k": {"__class__": "Pyro5.core.URI", "state": proxy}}),
+            ser=ser, op="call")
+    # --- call shapes ------------------------------------------------------------------------------------------
+    for ser in ("serpent", "marshal", "json", "msgpack"):
+        add("call-ok-" + ser, _call(ser, [uri, 1], {"k": exc("KeyError")}), ser=ser, op="call")
+        add("call-obj-not-recreated-" + ser, _call(ser, [], {}, obj=uri, method={"__class__": "os.system"}), ser=ser, op="call")
+        add("call-vargs-hostile-" + ser, _call(ser, [{"__class__": "os.system"}], {}), ser=ser, op="call")
+        add("call-kwargs-hostile-" + ser, _call(ser, [], {"k": {"__class__": "a__b"}}), ser=ser, op="call")
+        add("call-vargs-is-classdict-" + ser, _call(ser, uri, exc("KeyError")), ser=ser, op="call")
+    for ser in ("serpent", "marshal", "msgpack"):
+        add("call-3-" + ser, ["o", "m", [uri]], ser=ser, op="call")
+        add("call-5-" + ser, ["o", "m", [uri], {}, 1], ser=ser, op="call")
+        add("call-str4-" + ser, "abcd", ser=ser, op="call")
+        add("call-none-" + ser, None, ser=ser, op="call")
+        add("call-dict4-" + ser, {"a": 1, "b": 2, "c": uri, "d": 4}, ser=ser, op="call")
+    add("call-tuple-serpent", ("o", "m", (uri,), {}), ser="serpent", op="call")
+    add("call-json-missing-kwargs", {"object": "o", "method": "m", "params": [uri]}, op="call")
+    add("call-json-missing-params", {"object": "o", "method": "m", "kwargs": {}}, op="call")
+    add("call-json-missing-object", {"method": "m", "params": [uri], "kwargs": {}}, op="call")
+    add("call-json-missing-method", {"object": "o", "params": [uri], "kwargs": {}}, op="call")
+    add("call-json-list", ["o", "m", [uri], {}], op="call")
+    add("call-json-params-error-before-kwargs", {"params": [{"__class__": "a__b"}], "kwargs": {"k": {"__class__": "os.system"}}}, op="call")
+    # --- msgpack extension values ----------------------------------------------------------------------------
+    import struct
+    exts = [ET(0x30, struct.pack("dd", 1.5, -2.0)), ET(0x31, b"1180591620717411303424"), ET(0x32, struct.pack("d", 86400.0 * 365)),
+            ET(0x33, struct.pack("l", 730000))]
+    add("ext-loads", [exts, {"k": exts[1]}], ser="msgpack")
+    add("ext-call", ["o", "m", [exts[1], exts[0]], {"k": exts[3]}], ser="msgpack", op="call")
+    add("ext-call-obj", [exts[1], "m", [], {}], ser="msgpack", op="call")
+    add("ext-bad-data", [ET(0x31, b"12x")], ser="msgpack")
+    add("ext-bad-data-call", ["o", "m", [ET(0x30, b"x")], {}], ser="msgpack", op="call")
+    for code in (0, 5, 0x2f, 0x34, 127):
+        add("ext-code-%d" % code, [ET(code, b"abc")], ser="msgpack")
+    add("ext-unknown-code-call", ["o", "m", [ET(5, b"abc")], {}], ser="msgpack", op="call")
+    add("ext-as-flag", {"__class__": "ValueError", "__exception__": ET(0x31, b"0"), "args": []}, ser="msgpack")
+    add("ext-before-classdict-error", [{"__class__": "os.system"}, ET(5, b"")], ser="msgpack")
+    return P
+
+
+def _call(ser, vargs, kwargs, obj="obj", method="m"):
+    if ser == "json":
+        return {"object": obj, "method": method, "params": vargs, "kwargs": kwargs}
+    return [obj, method, vargs, kwargs]
+
+
+def _probes(R):
+    """run the probe table on the real code; returns Lean source of the `probes` list + the probed flags"""
+    from props import c04
+    from props import c04_gen as G
+    rows = []
+    seen = set()
+    for name, ser, op, reg, payload in _probe_table(R):
+        if name in seen:
+            raise RuntimeError("duplicate probe name " + name)
+        seen.add(name)
+        data = G.encode(R, ser, payload, None)
+        c04.REC.start()
+        try:
+            lit = R.codec_loads(ser, data)
+        finally:
+            base = c04.REC.stop()
+        res = c04.run_real(R, ser, op, data, reg)
+        extra = c04._minus(res["events"], base) + res["events_del"]
+        expect = res["canon"]
+        if res.get("nocompare"):
+            raise RuntimeError("probe %s is not comparable (%s)" % (name, res["nocompare"]))
+        if extra:
+            expect += " events:" + ",".join(sorted({e[0] for e in extra}))     # never equal to a model outcome
+        rows.append("  { name := %s, ser := %d, call := %s, reg := [%s], spec := %s,\n    input := %s,\n    expect := %s }"
+                    % (_lstr(name), c04.SERS.index(ser), "true" if op == "call" else "false",
+                       ", ".join(_chars(t) for t in reg), _chars(res.get("site") or "-"),
+                       _lit(R, lit, c04._label), _chars(expect)))
+    return rows
+
+
+def _ext_codes(R):
+    """the extension codes ext_hook accepts (does not answer with SerializeError), probed with data of every shape it parses"""
+    import struct
+    ser = R.sers["msgpack"]
+    datas = [struct.pack("dd", 1.0, 2.0), b"12", struct.pack("d", 86400.0), struct.pack("l", 730000), b""]
+    out = []
+    for code in range(0, 128):
+        refused = 0
+        for d in datas:
+            try:
+                ser.ext_hook(code, d)
+            except R.errors.SerializeError:
+                refused += 1
+            except Exception:
+                pass
+        if refused == 0:
+            out.append(code)
+        elif refused != len(datas):
+            raise RuntimeError("ext_hook refuses code %d for some data only" % code)
+    return out
+
+
+def _call_ext_hook(R):
+    """does MsgpackSerializer.loadsCall convert extension values (probe, not source reading)"""
+    ser = R.sers["msgpack"]
+    data = R.msgpack.packb(["o", "m", [R.msgpack.ExtType(0x31, b"77")], {}], use_bin_type=True)
+    r = ser.loadsCall(data)
+    v = r[2][0]
+    if v == 77 and type(v) is int:
+        return True
+    if type(v) is R.msgpack.ExtType:
+        return False
+    raise RuntimeError("cannot tell whether loadsCall applies ext_hook: got %r" % (v,))
+
+
 def extract():
     common.repo_on_path()
     import builtins
     import sqlite3
     import struct
     from Pyro5 import errors, serializers
+    from props import c04
+    R = c04.real()
     path = serializers.__file__
-    tree = ast.parse(open(path).read())
-    classes = {n.name: n for n in tree.body if isinstance(n, ast.ClassDef)}
-
-    def fn(cname, fname):
-        hits = [n for n in classes[cname].body if isinstance(n, ast.FunctionDef) and n.name == fname]
-        if len(hits) != 1:
-            raise RuntimeError("cannot find %s.%s" % (cname, fname))
-        return hits[0]
-
-    # --- decision lists -------------------------------------------------------------------
-    d2c = _tests(fn("SerializerBase", "dict_to_class"))
-    mkexc = _tests(fn("SerializerBase", "make_exception"))
-    serp = _tests(fn("SerpentSerializer", "dict_to_class"))
-    exth = _tests(fn("MsgpackSerializer", "ext_hook"))
-    # recreate_classes: the exact types dispatched on, in order
-    rc = fn("SerializerBase", "recreate_classes")
-    rctypes = []
-    for n in _ordered(rc):
-        if isinstance(n, ast.Compare) and len(n.ops) == 1 and isinstance(n.ops[0], ast.Is) and isinstance(n.comparators[0], ast.Name):
-            rctypes.append(n.comparators[0].id)
-    rctests = _tests(rc)
-    # --- loads / loadsCall shapes ---------------------------------------------------------
-    shapes = []
-    for cname in ("SerpentSerializer", "MarshalSerializer", "JsonSerializer", "MsgpackSerializer"):
-        for fname in ("loads", "loadsCall"):
-            f = fn(cname, fname)
-            nrec = sum(1 for n in ast.walk(f) if isinstance(n, ast.Call) and isinstance(n.func, ast.Attribute)
-                       and n.func.attr == "recreate_classes")
-            shapes.append(("%s.%s" % (cname, fname), nrec))
-
-    def unpack_kw(fname):
-        f = fn("MsgpackSerializer", fname)
-        calls = [n for n in ast.walk(f) if isinstance(n, ast.Call) and isinstance(n.func, ast.Attribute)
-                 and n.func.attr == "unpackb"]
-        if len(calls) != 1:
-            raise RuntimeError("MsgpackSerializer.%s: expected exactly one msgpack.unpackb call" % fname)
-        kws = []
-        for k in calls[0].keywords:
-            if k.arg is None:
-                raise RuntimeError("**kwargs in unpackb call")
-            kws.append("%s=%s" % (k.arg, ast.unparse(k.value)))
-        return sorted(kws)
-
-    hook_methods = sorted(n.name for n in classes["MsgpackSerializer"].body
-                          if isinstance(n, ast.FunctionDef) and n.name in ("object_hook", "ext_hook", "object_pairs_hook"))
     # --- name tables ------------------------------------------------------------------------
     allexc = sorted((n, t.__module__ + "." + t.__qualname__) for n, t in serializers.all_exceptions.items())
     struct_is_exc = isinstance(struct.error, type) and issubclass(struct.error, BaseException)
     struct_qual = struct.error.__module__ + "." + struct.error.__qualname__
-
-    def strlist(name, doc, xs):
-        return "/-- %s -/\ndef %s : List String := [%s]\n" % (doc, name, ", ".join(_lstr(x) for x in xs))
+    probes = _probes(R)
 
     out = []
-    out.append("-- GENERATED by harness/props/c04.py from %s and the imported modules builtins, Pyro5.errors, sqlite3, struct — do not edit\n"
-               % os.path.relpath(path, common.REPO))
+    out.append("-- GENERATED by harness/props/c04.py from the imported modules builtins, Pyro5.errors, sqlite3, struct and by PROBING the\n"
+               "-- real decoders of %s on a fixed table of inputs — do not edit\n" % os.path.relpath(path, common.REPO))
     out.append("namespace Pyro.Gen.C04\n")
     out.append("/-- what a module attribute is, as far as `issubclass(x, <base>)` can tell: an exception class (with its real\n"
                "    `__module__.__qualname__`), another class, or not a class at all (issubclass raises TypeError) -/\n"
@@ -139,17 +359,24 @@ def extract():
                % ",\n  ".join("(%s, %s)" % (_chars(n), _chars(q)) for n, q in allexc))
     out.append("def structErrorIsException : Bool := %s\n" % ("true" if struct_is_exc else "false"))
     out.append("def structErrorQual : List Char := %s\n" % _chars(struct_qual))
-    out.append(strlist("dictToClassTests", "decision list of SerializerBase.dict_to_class (tests, lookups, in source order)", d2c))
-    out.append(strlist("makeExceptionTests", "SerializerBase.make_exception", mkexc))
-    out.append(strlist("serpentDictToClassTests", "SerpentSerializer.dict_to_class", serp))
-    out.append(strlist("extHookTests", "MsgpackSerializer.ext_hook", exth))
-    out.append(strlist("recreateTypes", "types dispatched on by recreate_classes (`t is <type>`), in order", rctypes))
-    out.append(strlist("recreateTests", "recreate_classes", rctests))
-    out.append("/-- number of recreate_classes calls in each loads / loadsCall -/\ndef recreateCalls : List (String × Nat) := [%s]\n"
-               % ", ".join("(%s, %d)" % (_lstr(n), k) for n, k in shapes))
-    out.append(strlist("msgpackLoadsKw", "keyword arguments of msgpack.unpackb in MsgpackSerializer.loads", unpack_kw("loads")))
-    out.append(strlist("msgpackLoadsCallKw", "keyword arguments of msgpack.unpackb in MsgpackSerializer.loadsCall", unpack_kw("loadsCall")))
-    out.append(strlist("msgpackHookMethods", "hook methods defined by MsgpackSerializer", hook_methods))
+    out.append("/-- MsgpackSerializer.loadsCall converts extension values through ext_hook (probed on the real code) -/\n"
+               "def msgpackCallExtHook : Bool := %s\n" % ("true" if _call_ext_hook(R) else "false"))
+    out.append("/-- the extension codes ext_hook does not refuse with SerializeError (all 128 codes probed on the real code) -/\n"
+               "def extHookAccepted : List Int := [%s]\n" % ", ".join(str(c) for c in _ext_codes(R)))
+    out.append("/-- a literal tree as a wire codec delivers it (labels of leaves are opaque renderings) -/\n"
+               "inductive Lit\n  | atom (truthy : Bool) (label : String)\n  | blob (truthy : Bool) (label : String)\n"
+               "  | str (s : List Char)\n  | bytes (b : List UInt8)\n  | list (xs : List Lit)\n  | tuple (xs : List Lit)\n"
+               "  | set (xs : List Lit)\n  | dictS (ks : List (List Char)) (vs : List Lit)\n"
+               "  | dictK (ks : List (Bool × List Char)) (vs : List Lit)\n"
+               "  | ext (code : Int) (raw : String) (conv : String) (convTruthy : Bool)\n")
+    out.append("/-- one observation of the real decoder: serializer (0 serpent, 1 marshal, 2 json, 3 msgpack), path (call = loadsCall),\n"
+               "    registered converter tags, the external call that raised (\"-\" = none), the literal tree the codec delivered, and the\n"
+               "    canonical outcome (\"ok <rendering>\" / \"err <Enum>\", plus \" events:…\" if an audit event was seen) -/\n"
+               "structure Probe where\n  name : String\n  ser : Nat\n  call : Bool\n  reg : List (List Char)\n  spec : List Char\n"
+               "  input : Lit\n  expect : List Char\n")
+    for k, row in enumerate(probes):
+        out.append("def probe%d : Probe :=\n%s\n" % (k, row))
+    out.append("def probes : List Probe := [%s]\n" % ", ".join("probe%d" % k for k in range(len(probes))))
     out.append("end Pyro.Gen.C04\n")
     return "\n".join(out)
 
